@@ -262,6 +262,11 @@ def main(argv=None) -> int:
 
 
 if __name__ == "__main__":
+    import signal
+    try:
+        signal.signal(signal.SIGPIPE, signal.SIG_DFL)
+    except Exception:
+        pass
     try:
         rc = main()
     except SystemExit:
